@@ -161,3 +161,70 @@ Theorem C13_comb_inspect_refuted : exists (fs : list obj) (c : Bind.call) (r s :
 Proof. exact @WrappersSound.comb_inspect_refuted. Qed.
 Print Assumptions C13_comb_inspect_refuted.
 
+
+(* ---- the bridge from call shapes to term-level evaluation: an accepted call never evaluates to Raise type_error (Proofs/WrappersBridge.v) ---- *)
+From Sigtools.Proofs Require Import WrappersBridge.
+Theorem C13_bind_named_iff_accepts : forall (ps : list param) (pos : list term) (kws : list (name * term)), valid_sig ps = true -> NoDup (map fst kws) -> binds ps pos kws = accepts ps {| npos := length pos; kws := map fst kws |}.
+Proof. exact @WrappersBridge.bind_named_iff_accepts. Qed.
+Print Assumptions C13_bind_named_iff_accepts.
+
+Theorem C13_bind_named_spec : forall (ps : list param) (pos : list term) (kws : list (name * term)), valid_sig ps = true -> NoDup (map fst kws) -> match bind_named ps pos kws [] with | Some (vals, rest, restk) => named_ok ps (length pos) (map fst kws) = true /\ length vals = length (filter is_named ps) /\ rest = skipn (length (positional ps)) pos /\ restk = filter (extra_kw ps) kws | None => named_ok ps (length pos) (map fst kws) = false end.
+Proof. exact @WrappersBridge.bind_named_spec. Qed.
+Print Assumptions C13_bind_named_spec.
+
+Theorem C13_bind_named_iff_accepts_dup_refuted : exists (ps : list param) (pos : list term) (kws : list (name * term)), valid_sig ps = true /\ binds ps pos kws <> accepts ps {| npos := length pos; kws := map fst kws |}.
+Proof. exact @WrappersBridge.bind_named_iff_accepts_dup_refuted. Qed.
+Print Assumptions C13_bind_named_iff_accepts_dup_refuted.
+
+Theorem C13_def_behaviour_no_type_error : forall (tag : N) (ps : list param) (c : vcall), valid_sig ps = true -> NoDup (map fst (vkws c)) -> def_behaviour tag ps c = Raise type_error <-> accepts ps (vshape c) = false.
+Proof. exact @WrappersBridge.def_behaviour_no_type_error. Qed.
+Print Assumptions C13_def_behaviour_no_type_error.
+
+Theorem C13_def_behaviour_accepted : forall (tag : N) (ps : list param) (c : vcall), valid_sig ps = true -> NoDup (map fst (vkws c)) -> accepts ps (vshape c) = true -> exists vals : list term, bind_named ps (vpos c) (vkws c) [] = Some (vals, skipn (length (positional ps)) (vpos c), filter (extra_kw ps) (vkws c)) /\ length vals = length (filter is_named ps) /\ def_behaviour tag ps c = Tup tag (vals ++ (if has_kind VP ps then [Tup 0 (skipn (length (positional ps)) (vpos c))] else []) ++ (if has_kind VK ps then [Kw (filter (extra_kw ps) (vkws c))] else [])).
+Proof. exact @WrappersBridge.def_behaviour_accepted. Qed.
+Print Assumptions C13_def_behaviour_accepted.
+
+Theorem C13_wrapper_behaviour_accepted : forall (tag : N) (fparam : param) (others : list param) (lits : list term) (klits : list (name * term)) (mode : body_mode) (func : behaviour) (c : vcall), valid_sig (fparam :: others) = true -> is_named fparam = true -> NoDup (map fst (vkws c)) -> accepts (fparam :: others) (succ_call (vshape c)) = true -> let rest := skipn (length (positional (fparam :: others))) (Val 0 :: vpos c) in let restk := filter (extra_kw (fparam :: others)) (vkws c) in exists (v0 : term) (vals : list term), bind_named (fparam :: filter is_named others) (Val 0 :: vpos c) (vkws c) [] = Some (v0 :: vals, rest, restk) /\ vshape {| vpos := lits ++ rest; vkws := klits ++ restk |} = inner_call (fparam :: others) {| f_n := length lits; f_names := map fst klits |} (succ_call (vshape c)) /\ wrapper_behaviour tag fparam (filter is_named others) lits klits mode func c = match mode with | RaiseBefore e => Raise e | _ => if existsb (fun kv : name * term => has_kw (fst kv) restk) klits then Raise type_error else finish tag mode vals (func {| vpos := lits ++ rest; vkws := klits ++ restk |}) end.
+Proof. exact @WrappersBridge.wrapper_behaviour_accepted. Qed.
+Print Assumptions C13_wrapper_behaviour_accepted.
+
+Theorem C13_wrapper_behaviour_no_type_error : forall (tag : N) (fparam : param) (others : list param) (lits : list term) (klits : list (name * term)) (mode : body_mode) (func : behaviour) (c : vcall), valid_sig (fparam :: others) = true -> is_named fparam = true -> NoDup (map fst (vkws c)) -> clean_call c = true -> mode_ok mode = true -> accepts (fparam :: others) (succ_call (vshape c)) = true -> disjointb (map fst (vkws c)) (map fst klits) = true -> wrapper_behaviour tag fparam (filter is_named others) lits klits mode func c = Raise type_error -> func {| vpos := lits ++ skipn (length (positional (fparam :: others))) (Val 0 :: vpos c); vkws := klits ++ filter (extra_kw (fparam :: others)) (vkws c) |} = Raise type_error.
+Proof. exact @WrappersBridge.wrapper_behaviour_no_type_error. Qed.
+Print Assumptions C13_wrapper_behaviour_no_type_error.
+
+Theorem C13_wrapper_behaviour_mode_refuted : exists (tag : N) (fparam : param) (others : list param) (lits : list term) (klits : list (name * term)) (func : behaviour) (c : vcall), valid_sig (fparam :: others) = true /\ accepts (fparam :: others) (succ_call (vshape c)) = true /\ wrapper_behaviour tag fparam (filter is_named others) lits klits (RaiseBefore type_error) func c = Raise type_error /\ func {| vpos := lits ++ skipn (length (positional (fparam :: others))) (Val 0 :: vpos c); vkws := klits ++ filter (extra_kw (fparam :: others)) (vkws c) |} <> Raise type_error.
+Proof. exact @WrappersBridge.wrapper_behaviour_mode_refuted. Qed.
+Print Assumptions C13_wrapper_behaviour_mode_refuted.
+
+Theorem C13_stack_call_no_type_error : forall (ls : list layer) (id : N) (s : sigT) (tag : N) (c : vcall) (r : sigT), Forall layer_ok ls -> Forall gen_layer ls -> valid_sig (params s) = true -> NoDup (map fst (vkws c)) -> clean_call c = true -> stack_side ls s (vshape c) = true -> stack_func_side ls (vshape c) = true -> sig_of (stack ls (Plain id s (def_behaviour tag (params s)))) = Ok r -> accepts (params r) (vshape c) = true -> call (stack ls (Plain id s (def_behaviour tag (params s)))) c <> Raise type_error.
+Proof. exact @WrappersBridge.stack_call_no_type_error. Qed.
+Print Assumptions C13_stack_call_no_type_error.
+
+Theorem C13_stack_call_no_type_error_body : forall (ls : list layer) (id : N) (s : sigT) (b : behaviour) (c : vcall) (r : sigT), Forall layer_ok ls -> Forall gen_layer ls -> valid_sig (params s) = true -> sound_body s b -> NoDup (map fst (vkws c)) -> clean_call c = true -> stack_side ls s (vshape c) = true -> stack_func_side ls (vshape c) = true -> sig_of (stack ls (Plain id s b)) = Ok r -> accepts (params r) (vshape c) = true -> call (stack ls (Plain id s b)) c <> Raise type_error.
+Proof. exact @WrappersBridge.stack_call_no_type_error_body. Qed.
+Print Assumptions C13_stack_call_no_type_error_body.
+
+Theorem C13_stack_call_no_type_error_func_refuted : exists (ls : list layer) (id : N) (s : sigT) (tag : N) (c : vcall) (r : sigT), Forall layer_ok ls /\ Forall gen_layer ls /\ valid_sig (params s) = true /\ NoDup (map fst (vkws c)) /\ clean_call c = true /\ stack_side ls s (vshape c) = true /\ sig_of (stack ls (Plain id s (def_behaviour tag (params s)))) = Ok r /\ accepts (params r) (vshape c) = true /\ stack_exec ls s (vshape c) = true /\ stack_func_side ls (vshape c) = false /\ call (stack ls (Plain id s (def_behaviour tag (params s)))) c = Raise type_error.
+Proof. exact @WrappersBridge.stack_call_no_type_error_func_refuted. Qed.
+Print Assumptions C13_stack_call_no_type_error_func_refuted.
+
+Theorem C13_stack_call_no_type_error_clean_refuted : exists (ls : list layer) (id : N) (s : sigT) (tag : N) (c : vcall) (r : sigT), Forall layer_ok ls /\ Forall gen_layer ls /\ valid_sig (params s) = true /\ NoDup (map fst (vkws c)) /\ clean_call c = false /\ stack_side ls s (vshape c) = true /\ stack_func_side ls (vshape c) = true /\ sig_of (stack ls (Plain id s (def_behaviour tag (params s)))) = Ok r /\ accepts (params r) (vshape c) = true /\ call (stack ls (Plain id s (def_behaviour tag (params s)))) c = Raise type_error.
+Proof. exact @WrappersBridge.stack_call_no_type_error_clean_refuted. Qed.
+Print Assumptions C13_stack_call_no_type_error_clean_refuted.
+
+Theorem C13_comb_call_no_type_error : forall (fs : list obj) (ss : list sigT) (r : sigT) (c : vcall), all_ok (map sig_of fs) = Ok ss -> all_valid ss -> role_consistent (map params (comb_self_sig :: ss)) = true -> sig_of (Comb fs) = Ok r -> Forall gen_def fs -> NoDup (map fst (vkws c)) -> clean_call c = true -> vpos c <> [] -> mem n_self (map fst (vkws c)) = false -> noncolliding (vshape c) (params r) (map params (comb_self_sig :: ss)) = true -> accepts (params r) (vshape c) = true -> call (Comb fs) c <> Raise type_error.
+Proof. exact @WrappersBridge.comb_call_no_type_error. Qed.
+Print Assumptions C13_comb_call_no_type_error.
+
+Theorem C13_comb_call_kw_arg : forall (fs : list obj) (kw : list (name * term)) (v : term) (kw' : list (name * term)), NoDup (map fst kw) -> take_kw n_arg kw = Some (v, kw') -> call (Comb fs) {| vpos := []; vkws := kw |} = call (Comb fs) {| vpos := [v]; vkws := kw' |}.
+Proof. exact @WrappersBridge.comb_call_kw_arg. Qed.
+Print Assumptions C13_comb_call_kw_arg.
+
+Theorem C13_comb_call_no_type_error_kw : forall (fs : list obj) (ss : list sigT) (r : sigT) (kw : list (name * term)) (v : term) (kw' : list (name * term)), all_ok (map sig_of fs) = Ok ss -> all_valid ss -> role_consistent (map params (comb_self_sig :: ss)) = true -> sig_of (Comb fs) = Ok r -> Forall gen_def fs -> NoDup (map fst kw) -> clean_kw kw = true -> take_kw n_arg kw = Some (v, kw') -> mem n_self (map fst kw) = false -> noncolliding (vshape {| vpos := [v]; vkws := kw' |}) (params r) (map params (comb_self_sig :: ss)) = true -> accepts (params r) (vshape {| vpos := [v]; vkws := kw' |}) = true -> call (Comb fs) {| vpos := []; vkws := kw |} <> Raise type_error.
+Proof. exact @WrappersBridge.comb_call_no_type_error_kw. Qed.
+Print Assumptions C13_comb_call_no_type_error_kw.
+
+Theorem C13_comb_call_self_keyword_refuted : exists (fs : list obj) (ss : list sigT) (r : sigT) (c : vcall), all_ok (map sig_of fs) = Ok ss /\ all_valid ss /\ role_consistent (map params (comb_self_sig :: ss)) = true /\ sig_of (Comb fs) = Ok r /\ Forall gen_def fs /\ NoDup (map fst (vkws c)) /\ clean_call c = true /\ vpos c <> [] /\ noncolliding (vshape c) (params r) (map params (comb_self_sig :: ss)) = true /\ accepts (params r) (vshape c) = true /\ call (Comb fs) c = Raise type_error.
+Proof. exact @WrappersBridge.comb_call_self_keyword_refuted. Qed.
+Print Assumptions C13_comb_call_self_keyword_refuted.
+
